@@ -202,8 +202,10 @@ static gd_entry_t *_GD_Add(DIRFILE *restrict D,
     return NULL;
   }
 
-  /* check for bad field type */
-  if (_GD_InvalidEntype(entry->field_type)) {
+  /* check for bad field type (there is only one INDEX field) */
+  if (_GD_InvalidEntype(entry->field_type) ||
+      entry->field_type == GD_INDEX_ENTRY)
+  {
     _GD_SetError(D, GD_E_BAD_ENTRY, GD_E_ENTRY_TYPE, NULL, entry->field_type,
         NULL);
     dreturn("%p", NULL);
